@@ -53,6 +53,33 @@ func loadVariants(verif string) []Variant {
 	return out
 }
 
+// loadBenign: the behaviour-preserving variants that the rules are known to stay silent on.
+func loadBenign(verif string) []Variant {
+	var out []Variant
+	root := filepath.Join(verif, "benign")
+	ents, _ := os.ReadDir(root)
+	for _, e := range ents {
+		if !e.IsDir() {
+			continue
+		}
+		b, err := os.ReadFile(filepath.Join(root, e.Name(), "meta.json"))
+		if err != nil {
+			continue
+		}
+		var m struct {
+			ID     string `json:"id"`
+			Status string `json:"status"`
+			Source string `json:"source"`
+		}
+		if json.Unmarshal(b, &m) != nil || m.Status != "silent" {
+			continue
+		}
+		out = append(out, Variant{ID: "benign-" + e.Name(), Source: m.Source, dir: filepath.Join(root, e.Name())})
+	}
+	sort.Slice(out, func(i, j int) bool { return out[i].ID < out[j].ID })
+	return out
+}
+
 type variantResult struct {
 	ID     string   `json:"id"`
 	Source string   `json:"source"`
@@ -220,6 +247,34 @@ func thoroughExtras(w *World, prop string, extra map[string]interface{}) {
 		}
 	}
 	extra["selftest"] = map[string]interface{}{"variants": len(mine), "fired": nf, "missed": nm, "skipped": ns, "results": results}
+
+	// (c) behaviour-preserving variants must stay silent
+	benign := loadBenign(verif)
+	bres := make([]variantResult, len(benign))
+	for i, v := range benign {
+		wg.Add(1)
+		go func(i int, v Variant) {
+			defer wg.Done()
+			sem <- struct{}{}
+			defer func() { <-sem }()
+			bres[i] = runVariant(self, w.RepoDir, prop, v, scratch)
+		}(i, v)
+	}
+	wg.Wait()
+	docRule(prop, "R00.benign", "self-test", "thorough tier: every behaviour-preserving variant kept under /verif/benign with status 'silent' (refactorings written by independent sub-agents that were asked to keep the behaviour identical, and mass renamings of unexported identifiers) is applied to a scratch copy of the current tree; none of this property's rules may report anything on it. Variants recorded as a known limitation of the rules (status 'limitation') are not run.")
+	nq, nl := 0, 0
+	for _, r := range bres {
+		switch {
+		case r.Status == "skipped":
+		case len(r.Fired) == 0:
+			nq++
+			w.check(prop, "R00.benign", "behaviour-preserving variant "+r.ID, 0, true, "silent")
+		default:
+			nl++
+			w.check(prop, "R00.benign", "behaviour-preserving variant "+r.ID, 0, false, fmt.Sprintf("rules %v raise an alarm on code that behaves as before: a false alarm of the checker", r.Fired))
+		}
+	}
+	extra["benign"] = map[string]interface{}{"variants": len(benign), "silent": nq, "alarms": nl}
 
 	// (b) GOARCH=386
 	vd := filepath.Join(scratch, "arch386")
